@@ -6,11 +6,14 @@
 //!   real      shape=<file> k=4 np=2 nbc=1 lens=1,2                  the same shape over Fq + KZG + Blake2b: does the verifier accept its honest proof?
 //!   fft / domain / kate / interp ...                                (C12, see c12.rs)
 mod c12;
+mod c14;
+mod c15;
 mod linf;
 mod real;
 mod shape;
 mod spec;
 mod symcs;
+mod syme;
 mod symf;
 
 use std::collections::HashMap;
@@ -88,7 +91,7 @@ fn sym_instances(np: usize, lens: &[Vec<usize>], nbc: usize) -> Vec<Vec<Vec<SymF
         .collect()
 }
 
-fn set_concrete(a: &HashMap<String, String>) {
+pub fn set_concrete(a: &HashMap<String, String>) {
     if let Some(p) = a.get("vals") {
         let j: Value = serde_json::from_str(&std::fs::read_to_string(p).expect("vals file")).expect("vals json");
         let m: HashMap<String, midnight_curves::Fq> =
@@ -274,7 +277,12 @@ fn run_prover(a: &HashMap<String, String>) -> Value {
         out["verifier_trailing_ok"] = json!(tv.assert_empty().is_ok());
         match vres {
             Err(e) => out["prepare_error"] = json!(format!("{e:?}")),
-            Ok(g) => out["guard_len"] = json!(g.queries.len()),
+            Ok(g) => {
+                out["guard_len"] = json!(g.queries.len());
+                if arg_usize(a, "guard", 0) == 1 {
+                    out["guard"] = guard_json(&g);
+                }
+            }
         }
         out["cinst"] = json!(cinst.iter().map(|v| v.iter().map(|c| c.0).collect::<Vec<_>>()).collect::<Vec<_>>());
     }
@@ -318,6 +326,8 @@ fn main() {
         "verifier" => run_verifier(&a),
         "prover" => run_prover(&a),
         "real" => real::run(&a),
+        "kzg" => c14::run(&a),
+        "batch" => c15::run(&a),
         "fft" | "domain" | "kate" | "interp" | "lrange" => c12::run(&sc, &a),
         _ => panic!("unknown scenario {sc}"),
     };
